@@ -20,24 +20,74 @@ fn ic_build() -> bool {
     cfg!(feature = "ic")
 }
 
+fn run_one(case: &J, out: &mut run::Out) {
+    if run::loops_seen() >= 6 {
+        // enough non-terminating calls were recorded; do not leave more spinning workers behind
+        out.ev(serde_json::json!({"ev":"case","c":case}));
+        out.ev(serde_json::json!({"ev":"skip","why":enc::cps("watchdog: earlier calls did not terminate")}));
+    } else {
+        topics::run_case(case, out, ic_build());
+    }
+}
+
 fn run_cases(cases: &str, trace: &str) -> Result<(), String> {
     let f = File::open(cases).map_err(|e| format!("{}: {}", cases, e))?;
-    let mut w = BufWriter::new(File::create(trace).map_err(|e| format!("{}: {}", trace, e))?);
-    let mut out = run::Out { w: &mut w, events: 0 };
-    let mut n = 0u64;
+    let mut all: Vec<J> = vec![];
     for line in BufReader::new(f).lines() {
         let line = line.map_err(|e| e.to_string())?;
         let line = line.trim();
         if line.is_empty() {
             continue;
         }
-        let case: J = serde_json::from_str(line).map_err(|e| format!("case {}: {}", n, e))?;
-        topics::run_case(&case, &mut out, ic_build());
-        n += 1;
+        all.push(serde_json::from_str(line).map_err(|e| format!("case {}: {}", all.len(), e))?);
     }
-    let ev = out.events;
+    let mut w = BufWriter::new(File::create(trace).map_err(|e| format!("{}: {}", trace, e))?);
+    let again = all.iter().any(|c| c["plan"]["again"].as_bool().unwrap_or(false));
+    let mut events = 0u64;
+    if !again {
+        let mut out = run::Out { w: &mut w, events: 0 };
+        for case in &all {
+            run_one(case, &mut out);
+        }
+        events = out.events;
+    } else {
+        // C12: every case is executed a second time, later and in the opposite order, in this same
+        // process; the second execution's events are appended to the first one's as further
+        // objects of the same case, so that any dependence on what ran before shows as a
+        // disagreement inside one case
+        let mut first: Vec<Vec<u8>> = vec![];
+        for case in &all {
+            let mut buf: Vec<u8> = vec![];
+            let mut out = run::Out { w: &mut buf, events: 0 };
+            run_one(case, &mut out);
+            events += out.events;
+            first.push(buf);
+        }
+        let mut second: Vec<Vec<u8>> = (0..all.len()).map(|_| vec![]).collect();
+        for (i, case) in all.iter().enumerate().rev() {
+            if !case["plan"]["again"].as_bool().unwrap_or(false) {
+                continue;
+            }
+            let text = String::from_utf8_lossy(&first[i]);
+            let nobj = text
+                .lines()
+                .filter(|l| l.contains("\"ev\":\"opt\"") || l.contains("\"ev\":\"alt\"") || l.contains("\"ev\":\"reload\""))
+                .count();
+            let mut c2 = case.clone();
+            c2["_again"] = serde_json::json!({"base": nobj});
+            let mut buf: Vec<u8> = vec![];
+            let mut out = run::Out { w: &mut buf, events: 0 };
+            run_one(&c2, &mut out);
+            events += out.events;
+            second[i] = buf;
+        }
+        for i in 0..all.len() {
+            w.write_all(&first[i]).map_err(|e| e.to_string())?;
+            w.write_all(&second[i]).map_err(|e| e.to_string())?;
+        }
+    }
     w.flush().map_err(|e| e.to_string())?;
-    eprintln!("tvh: ran {} cases, {} events", n, ev);
+    eprintln!("tvh: ran {} cases, {} events", all.len(), events);
     Ok(())
 }
 
